@@ -8,7 +8,9 @@ import (
 	"fmt"
 	"math"
 	"os"
+	"runtime"
 	"strconv"
+	"sync"
 	"unsafe"
 )
 
@@ -125,15 +127,23 @@ func Assume(c bool) {
 	}
 }
 
+var mu sync.Mutex
+
 // Assert states the property.
 func Assert(label string, c bool) {
 	if !c {
+		mu.Lock()
 		Failed = append(Failed, label)
+		mu.Unlock()
 	}
 }
 
 // Cover marks a location that must be reachable (vacuity guard).
-func Cover(label string) { Covered = append(Covered, label) }
+func Cover(label string) {
+	mu.Lock()
+	Covered = append(Covered, label)
+	mu.Unlock()
+}
 
 // Panics runs f and reports whether it panicked.
 func Panics(f func()) (p bool) {
@@ -201,3 +211,56 @@ func Ite[T any](c bool, a, b T) T {
 
 // Pick returns an arbitrary int in [lo,hi]; the executor case-splits over all of them.
 func Pick(name string, lo, hi int) int { return IntRange(name, lo, hi) }
+
+// Allocs runs f once and returns the number of heap allocations it performed.
+// (The executor counts allocation-capable SSA instructions executed inside f.)
+func Allocs(f func()) int {
+	var m1, m2 runtime.MemStats
+	runtime.ReadMemStats(&m1)
+	f()
+	runtime.ReadMemStats(&m2)
+	return int(m2.Mallocs - m1.Mallocs)
+}
+
+// Par runs the functions as concurrent goroutines and waits for all of them. The executor explores
+// every interleaving at synchronisation granularity and checks every pair of accesses for data races.
+// Nondeterministic values must be drawn before Par, not inside the goroutines.
+func Par(fs ...func()) {
+	var wg sync.WaitGroup
+	panics := make([]any, len(fs))
+	for i, f := range fs {
+		wg.Add(1)
+		go func(i int, f func()) {
+			defer wg.Done()
+			defer func() { panics[i] = recover() }()
+			f()
+		}(i, f)
+	}
+	wg.Wait()
+	for _, p := range panics {
+		if p != nil {
+			panic(p)
+		}
+	}
+}
+
+// Own / Release are ghost operations: the executor asserts that a buffer (header and storage) is
+// held by at most one goroutine at a time. Natively they keep the same bookkeeping under a mutex.
+var owners = map[any]int{}
+
+func Own[T any](b *T, who int) {
+	mu.Lock()
+	if o, ok := owners[b]; ok && o != who {
+		Failed = append(Failed, "exclusive-ownership")
+	}
+	owners[b] = who
+	mu.Unlock()
+}
+
+func Release[T any](b *T, who int) {
+	mu.Lock()
+	if owners[b] == who {
+		delete(owners, b)
+	}
+	mu.Unlock()
+}
